@@ -307,6 +307,21 @@ func (rw *rewriter) file(f *ast.File, fname string) bool {
 			c.Replace(rw.goStmt(n))
 		case *ast.CallExpr:
 			rw.call(n)
+		case *ast.UnaryExpr:
+			if cl, ok := n.X.(*ast.CompositeLit); ok && n.Op == token.AND && rw.isHTTPClient(cl) {
+				rw.site("httpclient", n.Pos(), "")
+				rw.used = true
+				c.Replace(simCall("HTTPClient", n))
+			}
+		case *ast.CompositeLit:
+			if rw.isHTTPClient(n) {
+				if u, ok := c.Parent().(*ast.UnaryExpr); ok && u.Op == token.AND {
+					break // handled at the & expression
+				}
+				rw.site("httpclient", n.Pos(), "")
+				rw.used = true
+				c.Replace(simCall("HTTPClientV", n))
+			}
 		}
 		return true
 	})
@@ -351,6 +366,15 @@ func (rw *rewriter) call(n *ast.CallExpr) {
 			}
 		}
 	}
+}
+
+func (rw *rewriter) isHTTPClient(cl *ast.CompositeLit) bool {
+	t := rw.info.TypeOf(cl)
+	if t == nil {
+		return false
+	}
+	named, ok := t.(*types.Named)
+	return ok && named.Obj().Pkg() != nil && named.Obj().Pkg().Path() == "net/http" && named.Obj().Name() == "Client"
 }
 
 func deref(t types.Type) types.Type {
